@@ -50,7 +50,8 @@ class DalitzPlotDecomposition(SpinAlignment):
         return _formulate_aligned_amplitude(reaction, self.reference_subsystem)[0]
 
     def define_symbols(self, reaction: ReactionInfo) -> dict[sp.Symbol, sp.Expr]:
-        return _formulate_aligned_amplitude(reaction, self.reference_subsystem)[1]
+        # copy, because the (cached) mapping is modified by the amplitude builder
+        return dict(_formulate_aligned_amplitude(reaction, self.reference_subsystem)[1])
 
 
 @cache
